@@ -2,4 +2,5 @@ import Fir.Props.C09
 #print axioms Fir.C09.resize_state_independent
 #print axioms Fir.C09.history_independent
 #print axioms Fir.C09.buffers_grow
+#print axioms Fir.C09.scratch_fully_overwritten
 #print axioms Fir.C09.temp_buffer_slice_ok
